@@ -9,7 +9,7 @@ from __future__ import annotations
 import ast
 
 from .loops import dotted
-from .nf import NF, Scope, parse_expr
+from .nf import NF, Scope, Poly, parse_expr
 from .repo import AnalysisError, short
 
 _NEG = {"Lt": "LtE", "LtE": "Lt", "Eq": "NotEq", "NotEq": "Eq", "Is": "IsNot", "IsNot": "Is", "In": "NotIn", "NotIn": "In"}
@@ -396,3 +396,171 @@ def leaf_application(repo, mi, fexpr, trees, cfg=None, at=None):
                 raise AnalysisError(f"leaf function `{short(fexpr, 60)}`: parameter {p} is not bound by the tree map")
     out = _Rename(binding).visit(clone(body))
     return _strip_none_guards(ast.fix_missing_locations(out))
+
+
+# ---------------------------------------------------------------------------------------------------------------------------
+# order worlds: a finite model for code that only *compares* numeric quantities
+class Unknown(Exception):
+    """A comparison that the order model cannot place (operands outside the declared clusters)."""
+
+    def __init__(self, msg, poly=None):
+        super().__init__(msg)
+        self.poly = poly
+
+
+def _weak_orderings(n: int):
+    """All assignments of ranks to n items (ordered set partitions): 1, 3, 13, 75 for n = 1..4."""
+    if n == 0:
+        yield ()
+        return
+    import itertools
+    for k in range(1, n + 1):
+        for ranks in itertools.product(range(k), repeat=n):
+            if set(ranks) == set(range(k)):
+                yield ranks
+
+
+class OrderModel:
+    """Worlds = one weak ordering per cluster of terms (polynomials); the sign of a difference a - b is read off the ranks of two terms
+    of one cluster with x - y == +-(a - b).  Derived atoms (min / max of two cluster terms) are replaced by the term the world selects.
+    No solver: the worlds are enumerated (a few hundred) and every comparison is evaluated by table lookup."""
+
+    def __init__(self):
+        self.clusters = []      # [(terms: list[Poly], constraint: callable(ranks) -> bool | None)]
+        self.derived = {}       # atom text -> ("min" | "max", cluster index, i, j)
+
+    def cluster(self, terms, constraint=None):
+        self.clusters.append((list(terms), constraint))
+        return len(self.clusters) - 1
+
+    def derive(self, atom_text: str, kind: str, ci: int, i: int, j: int):
+        self.derived[atom_text] = (kind, ci, i, j)
+
+    def extend_free(self, d: Poly, base_atoms: set) -> bool:
+        """Add the comparison `d <> 0` as an independent two-term cluster (positive part vs negative part) when that is sound:
+        d is a polynomial of entry-state atoms and contains an atom that no other cluster mentions, so every relation of the new
+        pair can be realised without disturbing the relations of the existing clusters."""
+        if d is None or not d.atoms() or not d.atoms() <= base_atoms:
+            return False
+        used = set()
+        for terms, _c in self.clusters:
+            for t in terms:
+                used |= t.atoms()
+        if not (d.atoms() - used):
+            return False
+        pos = Poly({m: c for m, c in d.terms.items() if c > 0})
+        neg = Poly({m: -c for m, c in d.terms.items() if c < 0})
+        self.cluster([pos, neg])
+        return True
+
+    def worlds(self):
+        import itertools
+        per = []
+        for terms, cons in self.clusters:
+            per.append([r for r in _weak_orderings(len(terms)) if cons is None or cons(r)])
+        for combo in itertools.product(*per):
+            yield combo
+
+    def resolve(self, world, p: Poly) -> Poly:
+        """p with derived atoms replaced by the selected term, and atomic cluster terms replaced by the first term of equal rank
+        (so that values that coincide in this world have one normal form)."""
+        m = {}
+        for a in p.atoms():
+            d = self.derived.get(a)
+            if d:
+                kind, ci, i, j = d
+                ri, rj = world[ci][i], world[ci][j]
+                pick = i if ((ri <= rj) if kind == "min" else (ri >= rj)) else j
+                m[a] = self.clusters[ci][0][pick]
+        if m:
+            p = p.subst(m)
+        rep = {}
+        for ci, (terms, _c) in enumerate(self.clusters):
+            for i, x in enumerate(terms):
+                ax = x.single_atom()
+                if ax is None:
+                    continue
+                for j in range(i):
+                    if world[ci][j] == world[ci][i] and (terms[j].single_atom() is not None or terms[j].is_const()):
+                        rep[ax] = terms[j]
+                        break
+        return p.subst(rep) if rep and any(a in rep for a in p.atoms()) else p
+
+    def sign(self, world, d: Poly) -> int:
+        d = self.resolve(world, d)
+        if d.is_const():
+            v = d.const_value()
+            return (v > 0) - (v < 0)
+        for ci, (terms, _c) in enumerate(self.clusters):
+            for i, x in enumerate(terms):
+                for j, y in enumerate(terms):
+                    if i == j:
+                        continue
+                    if self.resolve(world, x) - self.resolve(world, y) == d:
+                        ri, rj = world[ci][i], world[ci][j]
+                        return (ri > rj) - (ri < rj)
+        raise Unknown(d.canon(), d)
+
+    def describe(self, world) -> str:
+        out = []
+        for (terms, _c), ranks in zip(self.clusters, world):
+            order = sorted(range(len(terms)), key=lambda i: ranks[i])
+            s = ""
+            for k, i in enumerate(order):
+                if k:
+                    s += " = " if ranks[i] == ranks[order[k - 1]] else " < "
+                s += terms[i].canon()
+            out.append(s)
+        return "; ".join(out)
+
+
+def order_formula(nf: NF, e, sc, names: dict | None = None):
+    """Boolean expression -> formula over comparisons of polynomials evaluated in scope ``sc`` (a path state):
+    ("cmp", "lt" | "eq", A, B), ("truth", P), ("const", bool), ("not", f), ("and" | "or", (f, ...)).  ``names``: boolean locals -> formula."""
+    names = names or {}
+    if isinstance(e, ast.BoolOp):
+        return ("and" if isinstance(e.op, ast.And) else "or", tuple(order_formula(nf, v, sc, names) for v in e.values))
+    if isinstance(e, ast.UnaryOp) and isinstance(e.op, ast.Not):
+        return ("not", order_formula(nf, e.operand, sc, names))
+    if isinstance(e, ast.Name) and e.id in names:
+        return names[e.id]
+    if isinstance(e, ast.Constant) and isinstance(e.value, bool):
+        return ("const", e.value)
+    if isinstance(e, ast.Compare):
+        parts = [e.left] + list(e.comparators)
+        conj = []
+        for i, op in enumerate(e.ops):
+            a, b = nf.poly(parts[i], sc, None), nf.poly(parts[i + 1], sc, None)
+            if isinstance(op, ast.Lt):
+                f = ("cmp", "lt", a, b)
+            elif isinstance(op, ast.Gt):
+                f = ("cmp", "lt", b, a)
+            elif isinstance(op, ast.LtE):
+                f = ("not", ("cmp", "lt", b, a))
+            elif isinstance(op, ast.GtE):
+                f = ("not", ("cmp", "lt", a, b))
+            elif isinstance(op, ast.Eq):
+                f = ("cmp", "eq", a, b)
+            elif isinstance(op, ast.NotEq):
+                f = ("not", ("cmp", "eq", a, b))
+            else:
+                raise Unknown(f"operator {type(op).__name__}")
+            conj.append(f)
+        return conj[0] if len(conj) == 1 else ("and", tuple(conj))
+    return ("truth", nf.poly(e, sc, None))
+
+
+def eval_order_formula(model: OrderModel, world, f) -> bool:
+    k = f[0]
+    if k == "const":
+        return f[1]
+    if k == "not":
+        return not eval_order_formula(model, world, f[1])
+    if k == "and":
+        return all(eval_order_formula(model, world, g) for g in f[1])
+    if k == "or":
+        return any(eval_order_formula(model, world, g) for g in f[1])
+    if k == "truth":
+        return model.sign(world, f[1]) != 0
+    s = model.sign(world, f[2] - f[3])
+    return s < 0 if f[1] == "lt" else s == 0
